@@ -144,7 +144,7 @@ def run_tlc(module, cfg_text, *, extra_files=None, workers=1, simulate=None, dep
                             ef.write(json.dumps(obj, separators=(",", ":")) + "\n")
                         else:
                             res.emitted.append(obj)
-                    else:
+                    elif not line.startswith(("Parsing file ", "Semantic processing of", "Linting of module")):
                         out_lines.append(line)
                 p.wait()
             finally:
@@ -191,14 +191,49 @@ def run_tlc(module, cfg_text, *, extra_files=None, workers=1, simulate=None, dep
 
 
 def load_findings():
-    path = os.path.join(VERIF, "known_findings.jsonl")
+    """known_findings.jsonl (committed, never written at run time); known_findings.d/*.jsonl are
+    per-property work files merged into it by bin/merge-findings."""
+    import glob
+    paths = [os.path.join(VERIF, "known_findings.jsonl")] + sorted(glob.glob(os.path.join(VERIF, "known_findings.d", "*.jsonl")))
     out = []
-    if os.path.exists(path):
-        for ln in open(path):
-            ln = ln.strip()
-            if ln and not ln.startswith("#"):
-                out.append(json.loads(ln))
+    for path in paths:
+        if os.path.exists(path):
+            for ln in open(path):
+                ln = ln.strip()
+                if ln and not ln.startswith("#"):
+                    out.append(json.loads(ln))
     return out
+
+
+def cfg(name, **sub):
+    """spec/cfg/<name> with @KEY@ placeholders substituted."""
+    s = open(os.path.join(SPEC, "cfg", name)).read()
+    for k, v in sub.items():
+        s = s.replace("@%s@" % k, str(v))
+    return s
+
+
+def intset(xs):
+    return "{" + ",".join(str(int(i)) for i in xs) + "}"
+
+
+def replay_cases(chk, module, cfg_text, driver, part, opts=None, workers=1, timeout=1800, race=False, tlc_kw=None):
+    """model -> code in one call: TLC runs <module> with cfg_text, every PrintT(ToJson(..)) line becomes one case,
+    the harness driver replays them into the real code, failures are ingested. Returns the driver summary."""
+    d = scratch("rp-")
+    try:
+        cases = os.path.join(d, "cases.ndjson")
+        r = run_tlc(module, cfg_text, emit_to=cases, workers=workers, timeout=timeout, **(tlc_kw or {}))
+        chk.add_tlc(part + "_tlc", r)
+        if os.path.getsize(cases) == 0:
+            raise Infra("TLC emitted no cases for %s" % part)
+        res = os.path.join(d, "res.ndjson")
+        out, races = run_harness(driver, cases, res, opts, race=race, timeout=timeout)
+        for rep in races[:5]:
+            chk.fail(race_site(rep), "data-race", rep[:1500], None)
+        return chk.ingest_results(res, part=part)
+    finally:
+        shutil.rmtree(d, ignore_errors=True)
 
 
 class Check:
